@@ -27,14 +27,16 @@ def translate_hash_uses():
     """T-tie: regenerate Generated/HashUses.lean from the Rust sources (fail closed)."""
     root = repo_src_root()
     sc, rows = c05_scan.scan(root)
-    text = c05_scan.render_lean(rows, root)
+    crates_root = os.path.dirname(os.path.dirname(root))
+    front_end = c05_scan.front_end_std_hash(crates_root)
+    text = c05_scan.render_lean(rows, root, front_end)
     os.makedirs(os.path.dirname(GENERATED), exist_ok=True)
     if not os.path.exists(GENERATED) or open(GENERATED, encoding="utf-8").read() != text:
         with open(GENERATED, "w", encoding="utf-8") as f:
             f.write(text)
     vlib.ensure_dirs()
     with open(SCAN_JSON, "w") as f:
-        json.dump({"root": root, "rows": rows, "bindings": sc.bindings}, f, indent=1)
+        json.dump({"root": root, "rows": rows, "bindings": sc.bindings, "front_end_std_hash": front_end}, f, indent=1)
 
 
 SPEC = {
@@ -60,8 +62,12 @@ SPEC = {
         "Lean 4.33.0 kernel; axioms per theorem listed under 'theorems'",
         "hand-written model lean/TrustVerif/Model/C05.lean of StringInterner, PouIdMap, the POU emission order, "
         "method_table_for and alloc_for_temp_pairs, tied by this run's correspondence on the decoded container",
-        "translator checks/c05_scan.py (syntactic scan of the anchored Rust files for HashMap/HashSet bindings and "
-        "the operations applied to them; receiver resolution is by name and declared type, see level_note)",
+        "translator checks/c05_scan.py (syntactic scan of trust-runtime's compile and execution path - bytecode/**, "
+        "harness/**, runtime/**, eval/**, stdlib/**, value/**, debug/**, memory.rs, io.rs, instance.rs, task.rs, ... - "
+        "for HashMap/HashSet bindings and the operations applied to them, and of trust-hir/trust-syntax for any std hash "
+        "container; receiver resolution is by name and declared type, see level_note)",
+        "two hand-reviewed order-exposing uses (`reviewedBenign` in Model/C05.lean), each backed by a Lean theorem "
+        "about a model of that loop (commuting updates; retain with a pure predicate)",
         "Rust harness vharness c05 (project generator, child-process protocol, canonical per-cycle dump)",
         "std::collections::HashMap/HashSet are lawful finite maps whose only process-dependent behaviour is their "
         "iteration order; rustc_hash::FxHashMap has no per-process seed; IndexMap iterates in insertion order",
@@ -98,6 +104,14 @@ MANIFEST = {
 }
 
 
+# mirror of `reviewedBenign` in lean/TrustVerif/Model/C05.lean (used only to word the failure messages; the
+# decision is taken by the Lean theorem c05_no_order_exposure)
+REVIEWED = {
+    ("harness/config.rs", "apply_program_retain_overrides::retain_by_type", "forIn"),
+    ("debug/control.rs", "DebugState.frame_locations", "retain"),
+}
+
+
 def extra(ctx):
     """Coverage details for the evidence: the scanned table and the process-level statistics."""
     cov = {}
@@ -112,13 +126,26 @@ def extra(ctx):
         cov["hash_bindings"] = len(data["bindings"])
         cov["hash_use_histogram"] = ops
         cov["hash_scan_root"] = data["root"]
+        cov["hash_scan_files_with_hash_bindings"] = sorted({r["file"] for r in rows})
+        cov["hash_scan_front_end_std_hash"] = data.get("front_end_std_hash", [])
         cov["hash_scan_ambiguous_rows"] = [f"{r['file']}:{r['line']} {r['text']}" for r in rows
                                            if r["op"] == "ambiguousForeign"]
-        cov["hash_scan_order_exposing_rows"] = [f"{r['file']}:{r['line']} {r['op']} {r['text']}" for r in rows
-                                                if r["op"] not in c05_scan.ORDER_FREE]
+        exposing = [r for r in rows if r["hasher"] == "std" and r["op"] not in c05_scan.ORDER_FREE]
+        reviewed = [r for r in exposing if (r["file"], r["binding"], r["op"]) in REVIEWED]
+        unreviewed = [r for r in exposing if (r["file"], r["binding"], r["op"]) not in REVIEWED]
+        cov["hash_scan_reviewed_rows"] = [f"{r['file']}:{r['line']} {r['op']} {r['text']}" for r in reviewed]
+        cov["hash_scan_order_exposing_rows"] = [f"{r['file']}:{r['line']} {r['op']} {r['text']}" for r in unreviewed]
+        scan_failures = [f"order-exposing use of a std hash container: {r['file']}:{r['line']} [{r['op']}] {r['text']}"
+                         for r in unreviewed]
+        if len(reviewed) > len(REVIEWED):
+            scan_failures.append("a reviewed exception of the hash-use table is matched more than once: "
+                                 + "; ".join(cov["hash_scan_reviewed_rows"]))
+        for (f, ln, t) in data.get("front_end_std_hash", []):
+            scan_failures.append(f"std hash container in a front-end crate: {f}:{ln} {t}")
     except Exception as e:  # the translator already reported a failure
         cov["hash_scan_error"] = str(e)
-    failures = []
+        scan_failures = []
+    failures = list(scan_failures)
     # self-test of the experiment: in every case the observing processes/threads must really have iterated a
     # std HashMap in >= 3 different orders; otherwise hash seeds are somehow fixed and the run shows nothing
     stats = ctx["result"].get("stats", {})
